@@ -253,6 +253,9 @@ struct Plan {
     suffix: bool,
     /// per call of the fault-free run of the same plan: did it fail (chip outcome alone)?
     baseline_failed: Vec<bool>,
+    /// the SPI transaction following the planned fault is lost too; only clauses (a) and (b) are
+    /// judged then (after a double failure nothing can be demanded of the recovery's result)
+    double: bool,
 }
 
 struct RunOut {
@@ -560,7 +563,9 @@ impl<'a, RK: RadioKind, C: Probe> Driver<'a, RK, C> {
                         || self.baseline_failed.get(j).copied().unwrap_or(false)
                         // the call failed before it delivered a single transaction: the chip is in
                         // whatever mode it legitimately was in before the call
-                        || sh.fault_hit == Some(t0)
+                        // (not for listen(): the driver documents that whatever step of it fails,
+                        // chip and driver go back to standby - it may be called on a running reception)
+                        || (sh.fault_hit == Some(t0) && call != Call::Listen)
                     );
                 // the strict "driver says Standby" half is judged for the calls the statement's
                 // anchors name (tx, rx/complete_rx, cad); for calls that only start an operation
@@ -697,6 +702,7 @@ impl<'a> Visitor for RunPlan<'a> {
             let mut sh = bus.borrow_mut();
             sh.chip.clear_transcript();
             sh.arm(plan.fault);
+            sh.also_next_spi = plan.double;
         }
         let losses_base = bus.borrow().chip.losses();
         let mut d = Driver { var, lora, bus: bus.clone(), mdl, tx_pkt, rx_pkt, rxbuf: [0; 255], col, found: vec![], log: vec![], losses_base, failed_init: false, baseline_failed: plan.baseline_failed.clone(), failed: vec![], sync_expected: None, sync_word: if plan.ovar % 2 == 0 { 0x1424 } else { 0x1F38 } };
@@ -739,6 +745,9 @@ impl<'a> Visitor for RunPlan<'a> {
         };
         let col = d.col;
         for f in found {
+            if plan.double && !(f.sig.contains("|a-") || f.sig.contains("|b-")) {
+                continue;
+            }
             col.violation(&f.sig, &f.what, f.detail);
         }
         Some(out)
@@ -789,6 +798,14 @@ fn run_with_all_faults(base: &Plan, col: &mut Collector, stride: u32) {
             let mut p = base.clone();
             p.fault = Some(Fault { kind: *kind, at });
             p.baseline_failed = k.failed.clone();
+            // the same with the next bus transaction lost as well
+            if col.tier != Tier::Sanitizer {
+                let mut p2 = p.clone();
+                p2.double = true;
+                if run_plain(&p2, col).is_some() {
+                    col.event("double_faults_injected");
+                }
+            }
             if let Some(o) = run_plain(&p, col) {
                 col.event(match kind {
                     FaultKind::Spi => "spi_faults_injected",
@@ -1160,7 +1177,7 @@ impl Monitor for C14 {
         v
     }
     fn rule(&self) -> String {
-        "seq-dN: every sequence of exactly N calls over {init, sleep(warm), sleep(cold), prepare_for_tx, tx, prepare_for_rx(single|continuous|duty), start_rx, complete_rx, rx, rx_switch_channel, listen, prepare_for_cad, cad, set_lora_sync_word, get_rssi} on a freshly constructed LoRa, x {sx1261,sx1262,sx1276,sx1272} x 9 rotations (quick tier, depth 4: 3 rotations) of the chip outcome profiles {done@0/1/12, timeout@1/12, CRC error, header error, spurious+done@1/6}, followed by the probe suffix prepare_for_tx, tx, prepare_for_rx, rx; fault-dN: the same bases, and for each base with K_spi/K_busy/K_irq bus events one run per position with an SPI fault (transaction lost), a BUSY-wait fault (SX126x) or an IRQ-wait fault there; drop: manual receive flows in which wait_for_irq is dropped after k=0..15 polls, with 7 continuations; wan-fault: Class A and Class C call orders of async_device through LorawanRadio with a fault at every position; wan-drop: Class C flow with rx_continuous dropped after every poll count. Class = (chip, call sequence, outcome rotation, fault kind + call index + command byte).".into()
+        "seq-dN: every sequence of exactly N calls over {init, sleep(warm), sleep(cold), prepare_for_tx, tx, prepare_for_rx(single|continuous|duty), start_rx, complete_rx, rx, rx_switch_channel, listen, prepare_for_cad, cad, set_lora_sync_word, get_rssi} on a freshly constructed LoRa, x {sx1261,sx1262,sx1276,sx1272} x 9 rotations (quick tier, depth 4: 3 rotations) of the chip outcome profiles {done@0/1/12, timeout@1/12, CRC error, header error, spurious+done@1/6}, followed by the probe suffix prepare_for_tx, tx, prepare_for_rx, rx; fault-dN: the same bases, and for each base with K_spi/K_busy/K_irq bus events one run per position with an SPI fault (transaction lost), a BUSY-wait fault (SX126x) or an IRQ-wait fault there, and each of these once more with the SPI transaction that follows the fault lost as well (judged for clauses (a) and (b) only); drop: manual receive flows in which wait_for_irq is dropped after k=0..15 polls, with 7 continuations; wan-fault: Class A and Class C call orders of async_device through LorawanRadio with a fault at every position; wan-drop: Class C flow with rx_continuous dropped after every poll count. Class = (chip, call sequence, outcome rotation, fault kind + call index + command byte).".into()
     }
     fn assumptions(&self) -> Vec<String> {
         vec![
@@ -1184,7 +1201,7 @@ impl Monitor for C14 {
         } else {
             vec![
                 "tx_starts", "rx_starts", "cad_starts", "wrong_mode_calls", "op_starts_after_a_configuration_loss", "failed_operations", "failed_operations_left_in_standby",
-                "spi_faults_injected", "busy_faults_injected", "irq_faults_injected", "waits_dropped", "adapter_op_starts", "adapter_faults_injected",
+                "spi_faults_injected", "busy_faults_injected", "irq_faults_injected", "double_faults_injected", "waits_dropped", "adapter_op_starts", "adapter_faults_injected",
             ]
         }
     }
@@ -1201,7 +1218,7 @@ impl Monitor for C14 {
             if unsupported(var, &calls) {
                 return;
             }
-            let plan = Plan { var, calls, ovar, fault: None, suffix: true, baseline_failed: vec![] };
+            let plan = Plan { var, calls, ovar, fault: None, suffix: true, baseline_failed: vec![], double: false };
             run_plain(&plan, col);
             return;
         }
@@ -1214,7 +1231,7 @@ impl Monitor for C14 {
             if unsupported(var, &calls) {
                 return;
             }
-            let plan = Plan { var, calls, ovar, fault: None, suffix: true, baseline_failed: vec![] };
+            let plan = Plan { var, calls, ovar, fault: None, suffix: true, baseline_failed: vec![], double: false };
             run_with_all_faults(&plan, col, if col.tier == Tier::Sanitizer { 5 } else { 1 });
             return;
         }
@@ -1229,7 +1246,7 @@ impl Monitor for C14 {
                 let mut calls: Vec<Call> = pre.to_vec();
                 calls.push(Call::WaitIrqCut(k));
                 calls.extend_from_slice(post);
-                let plan = Plan { var, calls, ovar, fault: None, suffix: true, baseline_failed: vec![] };
+                let plan = Plan { var, calls, ovar, fault: None, suffix: true, baseline_failed: vec![], double: false };
                 run_plain(&plan, col);
             }
             "wan-fault" => {
